@@ -120,6 +120,18 @@ theorem scope_runtime_side :
     Gen.clsInitEnterStashCond = "stashSize>0" ∧
     Gen.updateEnterBlockShape = "dynLookup:len(scope.bindings);else:count(b.inStash)" := by decide
 
+/-- TIE 4f: the places of vm.go that address the operand stack relative to the frame base beyond `stack[sb]` (this) and
+`stack[sb-1]` (callee) are exactly the slot instructions of `slotLoads` / `slotStores` (`loadMixedStack…` and
+`resolveMixedStack…` delegate to these), with the index expressions `slotNeed` transcribes: `sb + args + l` resp.
+`sb + l` for `l > 0`, and the argument forms `sb + arg` / `sb - s` for `l ≤ 0` (not modelled: arguments are not counted in
+the normalised frame). -/
+theorem slot_access_sites :
+    Gen.slotAccessSites = ["loadStack.exec:vm.sb+vm.args+int(l)", "loadStack1.exec:vm.sb+int(l)",
+      "loadStack1Lex.exec:vm.sb+int(l)", "loadStackLex.exec:vm.sb+arg", "loadStackLex.exec:vm.sb+vm.args+int(l)",
+      "vm.initStack1:vm.sb+s", "vm.initStack:vm.sb+vm.args+s", "vm.initStack:vm.sb-s", "vm.storeStack1:vm.sb+s",
+      "vm.storeStack1Lex:vm.sb+s", "vm.storeStack:vm.sb+vm.args+s", "vm.storeStackLex:vm.sb+vm.args+s",
+      "vm.storeStackLex:vm.sb-s"] := by decide
+
 /-- TIE 6: the statement compiler (compiler_stmt.go) as the emitter model `emitS`/`emitList` transcribes it: for each
 method, its decision structure (conditions, loops, gotos) with, in source order, the calls that emit code or compile a
 sub-statement — regenerated on every run; bookkeeping statements are not part of the skeleton.  A failing conjunct names
